@@ -78,7 +78,7 @@ func init() {
 				W:       weights(Weights{"add": 25, "rm": 12, "write": 20, "rmfile": 8, "rmdir": 4, "reset": 1, "twins": 4, "junk": 0}),
 				Oracles: []HistOracle{orC04, orC06}, Idempotent: true}
 		})
-	checks["C02"] = histCheck("C02", []string{"C02.flatten_writeTree", "C02.world_commit_frame", "C02.world_commit_spec", "C05.world_readback", "C02.build_ne_nil", "C02.subtrees_wellformed", "C05.readback_writeTree", "C05.walk_write", "C05.holds_storeAfter", "C01.get_put", "C02.commitCmd_ok", "C02.commit_readback", "C02.commitMake_ok", "C05.reset_readback", "C12.commit_parse_format"}, histRule,
+	checks["C02"] = histCheck("C02", []string{"C02.world_commit_end_to_end", "C02.flatten_writeTree", "C02.world_commit_frame", "C02.world_commit_spec", "C05.world_readback", "C02.build_ne_nil", "C02.subtrees_wellformed", "C05.readback_writeTree", "C05.walk_write", "C05.holds_storeAfter", "C01.get_put", "C02.commitCmd_ok", "C02.commit_readback", "C02.commitMake_ok", "C05.reset_readback", "C12.commit_parse_format"}, histRule,
 		func(ctx *Ctx) *HistCfg {
 			return &HistCfg{Prop: "C02", Cases: tierN(ctx, 200, 2000), MinSteps: 8, MaxSteps: 30,
 				W:       weights(Weights{"commit": 20, "add": 18, "add-all": 6, "twins": 3, "case-twin-commit": 3, "junk": 0}),
